@@ -350,6 +350,11 @@ def make_case(rng):
 def corrupt(rng, stmts, ctx):
     """a description that is NOT exactly what the program needs"""
     ctx = copy.deepcopy(ctx)
+    comps = [st for st in stmts if st[0] == "comp"]
+    if comps and rng.random() < 0.3:
+        # a value SUPPLIED for a computed target: overwritten by the computed one, not an error
+        ctx[comps[0][1]] = ("i", 12345)
+        return ctx, "supplied-computed"
     c = rng.random()
     keys = list(ctx)
     if c < 0.35 or not keys:
@@ -438,7 +443,7 @@ class Prop(object):
                "bitarray, BytesIO"]
     assumptions = ["bit arrays and byte strings have exactly the requested length (shorter values are zero-padded by the real writer, by documented design)",
                    "bounded-block bodies fit inside their block (overrun - 1s past the end - is C20/C08 material and not in this model)",
-                   "no default_values table (missing value = error) and no set_context_type (plain dictionaries): these two serdes features are not modelled"]
+                   "no default_values table (missing value = error); set_context_type is represented by a computed `__type__` entry"]
 
     def correspond(self, ctx):
         rng = ctx.rng("sd")
@@ -474,7 +479,7 @@ class Prop(object):
             ctx.count("sd:corrupt:%s:%s" % (how, r[1] if r[0] == "FAIL" else "accepted"))
         ctx.diff("sd serialise exact descriptions: bits and resulting description, model == real Serialiser", sl, se)
         ctx.diff("sd deserialise (with arbitrary trailing bits): description and bits consumed, model == real Deserialiser", dl, de)
-        ctx.diff("sd corrupted descriptions (extra / missing value, wrong list length): same outcome, model == real Serialiser", fl, fe,
+        ctx.diff("sd corrupted descriptions (extra / missing value, wrong list length, supplied computed value): same outcome, model == real Serialiser", fl, fe,
                  nontrivial=lambda l, e: True)
 
     def findings(self, ctx):
